@@ -73,9 +73,31 @@ INLINE.append("def f(x):\n    ''\n    return x.y(200, 'a')\nclass K:\n    ''\n  
 INLINE.append("x = 1\n" + "\n" * 300 + "y = 2\n" + "z = (\n" + "\n" * 200 + "1,\n x)\n")
 
 
+# Twins: two compilations decoded in the same process whose nested code objects are EQUAL for CPython's code.__eq__
+# (which ignores co_filename, co_stacksize and the line table) but differ in exactly those attributes: the same
+# file compiled again after a blank line / comment moved the inner lines, and one source compiled for two files.
+# Anything that memoises decoding by code equality or hash hands the second one the first one's data.
+TWINS = [
+    ("def f(x):\n    y = x\n    return y\n", "def f(x):\n    y = x\n\n    return y\n", "<twin0>", "<twin0>"),
+    ("h = lambda a: (a,\n  a)\n", "h = lambda a: (a,\n\n\n  a)\n", "<twin1>", "<twin1>"),
+    ("class K:\n    def m(self):\n        a = 1\n        return a\n",
+     "class K:\n    def m(self):\n        a = 1\n        # moved\n        return a\n", "<twin2>", "<twin2>"),
+    ("def o():\n    def i(q):\n        r = q\n        return r\n    return i\n",
+     "def o():\n    def i(q):\n        r = q\n\n\n        return r\n    return i\n", "<twin3>", "<twin3>"),
+    ("def f(x):\n    return [k for k in x\n            if k]\n", "def f(x):\n    return [k for k in x\n\n            if k]\n", "<twin4>", "<twin4>"),
+    ("def f(x):\n    return x + 1\ng = lambda: (f,\n 2)\n", "def f(x):\n    return x + 1\ng = lambda: (f,\n 2)\n", "<twin5a>", "<twin5b>"),
+    ("async def c(a):\n    await a\n    return a\n", "async def c(a):\n    await a\n    # moved\n    return a\n", "<twin6>", "<twin6>"),
+]
+
+
 def code_objects(tier, rng=None, limit=None, max_code=None):
     """yields (origin, code) for every code object (nested included)"""
     seen = 0
+    for i, (a, b, fa, fb) in enumerate(TWINS):
+        for tag, src, fn in (("a", a, fa), ("b", b, fb)):
+            c = compile(src, fn, "exec")
+            for k in walk(c):
+                yield ("twin%d%s" % (i, tag), k)
     for i, src in enumerate(INLINE):
         try:
             with warnings.catch_warnings():
